@@ -19,6 +19,13 @@ def pattern_groups(k, L, action="{ }", prefix="Z", alpha=ALPHA):
         # a second rule gives back-up opportunities around NUL: 'a\0b' vs the pattern
         rules = [H.Rule(a, scs=[name], action=action), H.Rule(R.cat(A, Z, B), scs=[name], action=action)]
         gs.append(H.Group([(name, True)], rules, name, alpha, L, label="nul:" + R.render(a) + " ; a\\x00b"))
+    # backing up across a NUL: the longest match ends in (or contains) NUL and a longer attempt fails after it
+    sets = [([R.cat(A, Z), R.cat(A, Z, B, B), B], "a\\0 ; a\\0bb ; b"), ([Z, R.cat(Z, A, Z), A], "\\0 ; \\0a\\0 ; a"),
+            ([A, R.cat(A, Z, Z, B)], "a ; a\\0\\0b"), ([R.cat(A, B, Z), R.cat(A, B, Z, R.cat(A, A)), A], "ab\\0 ; ab\\0aa ; a"),
+            ([R.plus(Z), R.cat(R.plus(Z), A, B)], "\\0+ ; \\0+ab"), ([R.cat(HFF, Z), R.cat(HFF, Z, HFF, Z, A)], "\\xff\\0 ; \\xff\\0\\xff\\0a")]
+    for i, (rs, lab) in enumerate(sets):
+        name = "%sBK%d" % (prefix, i)
+        gs.append(H.Group([(name, True)], [H.Rule(r, scs=[name], action=action) for r in rs], name, alpha, L + 2, label="nul-backup:" + lab))
     return gs
 
 
@@ -99,13 +106,27 @@ def run(tier):
         J("allbytes" + tb, [allbytes_group()], {}, per=1, flex_args=[tb, "-8"])
     # 7-bit scanners behave identically on 7-bit input
     a7 = bytes([0, 0x7f, ord('a'), ord('b')])
-    at7 = [Z, R.lit(0x7f), A, ('set', frozenset(range(0, 128)) - {ord('a')}), ('set', frozenset(range(0, 128)) - {10})]
+    at7 = [Z, R.lit(0x7f), A, ('set', frozenset(range(0, 128)) - {ord('a')}), ('set', frozenset(range(0, 128)) - {10}),
+           ('set', frozenset(range(0, 9))), ('set', frozenset({0, 32, 9})), ('set', frozenset({0, 0x7f}))]
+    a7 = bytes([0, 0x7f, ord('a'), ord('b'), 5, 32])
     g7 = []
     for i, a in enumerate(specgen.asts_upto(1, at7, UNARY)):
         if not R.nullable(a):
             g7.append(H.Group([("S%d" % i, True)], [H.Rule(a, scs=["S%d" % i])], "S%d" % i, a7, L, label="7bit:" + R.render(a, lit_style='hex')))
-    for tb in ("-Cem", "-Cf", "-CF", "-C"):
+    for tb in ("-Cem", "-Cf", "-CF", "-C", "-Ce", "-Cfe", "-CFe", "-Cm"):
         J("7bit" + tb, g7, small, flex_args=[tb, "-7"])
+    # Equivalence classes are global to a specification: a literal \0 elsewhere in a packed spec isolates NUL's class and can hide
+    # a class that mishandles NUL.  Each NUL-containing class therefore also gets a specification of its own.
+    for ai, atom in enumerate(at7[3:]):
+        solo = []
+        for i, a in enumerate(specgen.asts_upto(1, [atom], UNARY)):
+            if not R.nullable(a):
+                solo.append(H.Group([("Q%d" % i, True)], [H.Rule(a, scs=["Q%d" % i]), H.Rule(R.plus(A), scs=["Q%d" % i])], "Q%d" % i, a7, L,
+                                    label="7bit-solo:" + R.render(a, lit_style='hex') + " ; a+"))
+        for tb in ("-Cem", "-Ce", "-Cfe", "-CFe", "-Cf"):
+            J("7bit-solo%d%s" % (ai, tb), solo, small, flex_args=[tb, "-7"])
+            if ai < 3:
+                J("8bit-solo%d%s" % (ai, tb), solo, small, flex_args=[tb, "-8"])
 
     tot = dict(executions=0, tokens=0, choice_points=0, op_effects=0, nontrivial=0, inputs=0, ref_states=0, ref_edges=0, ref_edges_walked=0)
     configs = set()
